@@ -2795,27 +2795,45 @@ func (c StreamContext) HasTag(name string) (bool, error) {
 	if c.v == nil {
 		return false, fmt.Errorf("no view")
 	}
-	td := c.v.tagDetails[name]
-	if !td.Uncertain.IsSet(uint(c.s.ID())) {
-		return td.Matches.IsSet(uint(c.s.ID())), nil
+	if err := c.decideTags([]string{name}); err != nil {
+		return false, err
 	}
-	//TODO: figure out if the uncertain tag matches
-	return false, nil
+	td := c.v.tagDetails[name]
+	return td.Matches.IsSet(uint(c.s.ID())), nil
+}
+
+// decideTags evaluates those of the tags that are still uncertain for the stream.
+func (c StreamContext) decideTags(names []string) error {
+	uncertain := []string(nil)
+	for _, tn := range names {
+		if td, ok := c.v.tagDetails[tn]; ok && td.Uncertain.IsSet(uint(c.s.ID())) {
+			uncertain = append(uncertain, tn)
+		}
+	}
+	if len(uncertain) == 0 {
+		return nil
+	}
+	stream := bitmask.LongBitmask{}
+	stream.Set(uint(c.s.ID()))
+	return c.v.prefetchTags(context.Background(), uncertain, stream)
 }
 
 func (c StreamContext) AllTags() ([]string, error) {
 	if c.v == nil {
 		return nil, fmt.Errorf("no view")
 	}
+	names := make([]string, 0, len(c.v.tagDetails))
+	for tn := range c.v.tagDetails {
+		names = append(names, tn)
+	}
+	if err := c.decideTags(names); err != nil {
+		return nil, err
+	}
 	tags := []string{}
 	for tn, td := range c.v.tagDetails {
-		if !td.Uncertain.IsSet(uint(c.s.ID())) {
-			if td.Matches.IsSet(uint(c.s.ID())) {
-				tags = append(tags, tn)
-			}
-			continue
+		if td.Matches.IsSet(uint(c.s.ID())) {
+			tags = append(tags, tn)
 		}
-		//TODO: figure out if the uncertain tag matches
 	}
 	sort.Strings(tags)
 	return tags, nil
